@@ -516,6 +516,11 @@ def doNetOp (p : KParams) (ctx : String) (op : List String) (s : KSt) : Option K
               let len := (findNat? rest "len").getD 0
               let id := (findNat? rest "id").getD 0
               let payload := (List.range len).map (fun i => UInt8.ofNat ((id * 7 + i) % 256))
+              -- explicit payload: `data=<hex>` (then `len=` is ignored)
+              let payload := match findKv? rest "data" with
+                | some "-" => []
+                | some x => (unhexBytes x).getD payload
+                | none => payload
               let r := s.net.udpSendTo now name dst payload
               let s := fx (r.1, r.2.1) s
               some (res s (ecRes r.2.2.1 ++ " n=" ++ toString r.2.2.2))
